@@ -86,6 +86,11 @@ CHECKS = {
             "Repetition can refute determinism, not prove it; what makes a refutation likely is the input: TLC-generated programs with two or more applications, types, fields, endpoints, parameters and enum items, call graphs, type graphs and chained mixins. About 30 (generator, option) entry points (compile itself, pb text/json/compact/binary, printer, sequence / integration (plain, clustered, endpoint analysis) / data-model diagrams, Mermaid forms, Swagger and OpenAPI 3 in yaml and json, database creation script, relational model) are each run 5 (quick) or 12 (thorough) times per process in 2 processes; TLC replays all observations through the specification's Observe action.",
             "Generators are called through library entry points; failing generators contribute nothing here (C20); importers are not included.",
             "DESIGN.md §6 C19"),
+    "C07": ("exploration",
+            "CompileConc.tla (global lexer-state map: allocate, get-or-create, delete at end, address reuse) model-checked by TLC (and its never-delete variant shown to violate the invariants); concurrent compilations of TLC-generated and corpus sources under the Go race detector; every result validated by TLC against the sequential baseline (Determinism.tla Observe) and the quiescence clause (CompileConcTrace.tla)",
+            "The protocol that makes the lexer state safe is model-checked exhaustively for 3 parses x 2 addresses; the implementation is then run, built with -race and the verif tag, in waves of 2/8/64/16 goroutines under GOMAXPROCS 1/2/4/16 with random start offsets and forced GC between waves (address reuse), over TLC-generated programs (incl. chained mixins, whose result depends on post-processing order), corpus files and import closures with diamonds. Every concurrent text and JSON digest must equal the first sequential observation of the same source; the global lexer-state map must be empty at every quiescent point; any race-detector report is a violation.",
+            "Schedules are sampled, not enumerated; the race detector only sees executed interleavings.",
+            "DESIGN.md §6 C07"),
 }
 
 PENDING = {}
